@@ -216,6 +216,23 @@ def generate(rng, tier):
                 nm += 1
                 slots.append(o["into"])
             ops.append(o)
+            if "into" in o and rng.random() < 0.5:
+                # the user redefines the tags of the loaded mesh under the
+                # SAME names and saves it again, handing back the data
+                # dictionaries that load() returned (they contain the old
+                # encoded tags next to the user's own fields)
+                new = "m%d" % nm
+                nm += 1
+                slots.append(new)
+                ops.append({"op": "retag", "src": o["into"], "slot": new,
+                            "seed": rng.randrange(1 << 30)})
+                v2 = rng.choice(enabled)
+                pid2 = "f%d" % npath
+                npath += 1
+                paths = paths + [(pid2, v2)]
+                ops.append({"op": "save", "mesh": new, "path": pid2,
+                            "variant": v2, "with_data": True, "fault": None,
+                            "reuse_loaded_data": True})
         elif r < 0.92 and len(paths) >= 2:
             (a, va), (b, vb) = rng.sample(paths, 2)
             ops.append({"op": "clobber", "path": a, "variant": va,
@@ -432,6 +449,9 @@ def _execute(trace):
                                                        o["data_seed"])
                     log.append((k, "mk", mesh_digest(W[o["slot"]])))
                     continue
+                if op == "retag":
+                    _retag(o, W, bump, probes)
+                    continue
                 if op == "save":
                     v = _save(o, W, model, scratch, probes, faults, keys_nt,
                               bump)
@@ -469,6 +489,38 @@ def _execute(trace):
             "log_digest": digest.jdigest(log), "keys": keys}
 
 
+def _retag(o, W, bump, probes):
+    """Same geometry, same tag NAMES, other tagged sets / flags."""
+    from dataclasses import replace as _replace
+    from skfem.generic_utils import OrientedBoundary
+    m = W.get(o["src"])
+    if m is None:
+        return
+    r = random.Random(o["seed"])
+    subs = {}
+    for k in (m.subdomains or {}):
+        n = m.nelements
+        subs[k] = np.array(sorted(r.sample(range(n), r.randint(0, n))),
+                           dtype=np.int32)
+    bnds = {}
+    f2t = m.f2t
+    for k, v in (m.boundaries or {}).items():
+        nf = f2t.shape[1]
+        idx = np.array(sorted(r.sample(range(nf), r.randint(0, min(nf, 12)))),
+                       dtype=np.int32)
+        if getattr(v, "ori", None) is not None or r.random() < 0.3:
+            ori = np.array([r.randrange(2) if f2t[1, f] != -1 else 0
+                            for f in idx], dtype=np.int64)
+            bnds[k] = OrientedBoundary(idx, ori)
+        else:
+            bnds[k] = idx
+    W[o["slot"]] = _replace(m, _subdomains=subs or None,
+                            _boundaries=bnds or None)
+    W[o["slot"] + ":data"] = W.get(o["src"] + ":data")
+    W[o["slot"] + ":loaded"] = W.get(o["src"] + ":loaded")
+    bump(probes, "tags-redefined-under-the-same-names")
+
+
 def _path(scratch, o):
     return os.path.join(scratch, o["path"] + VARIANTS[o["variant"]][0])
 
@@ -485,7 +537,27 @@ def _save(o, W, model, scratch, probes, faults, keys_nt, bump):
         return None
     pd, cd = (None, None)
     data = None
-    if o["with_data"] and variant not in ("json", "npz"):
+    loaded = W.get(o["mesh"] + ":loaded") if o.get("reuse_loaded_data") \
+        else None
+    if loaded is not None and variant not in ("json", "npz"):
+        # the dictionaries returned by an earlier load(), handed back as they
+        # are: the user's fields plus the OLD encoded tags
+        # ('gmsh:*' entries are meshio's own bookkeeping; its gmsh writer
+        # raises KeyError when it gets one of the pair without the other,
+        # with or without scikit-fem, so they are not handed back)
+        pd = {k: np.array(v) for k, v in loaded[0].items()
+              if not k.startswith("gmsh:")}
+        cd = {k: [np.array(a) for a in v] for k, v in loaded[1].items()
+              if not k.startswith("gmsh:")}
+        user_pd = {k: np.asarray(v, dtype=np.float64)
+                   for k, v in pd.items() if not k.startswith("skfem:")
+                   and not k.startswith("gmsh:")}
+        user_cd = {k: [np.asarray(v[0], dtype=np.float64)]
+                   for k, v in cd.items() if not k.startswith("skfem:")
+                   and not k.startswith("gmsh:")}
+        data = (user_pd, user_cd)
+        bump(probes, "save-with-data-dictionaries-returned-by-load")
+    elif o["with_data"] and variant not in ("json", "npz"):
         pd0, cd0 = W[o["mesh"] + ":data"]
         pd = {k: v.copy() for k, v in pd0.items()}
         cd = {k: [a.copy() for a in v] for k, v in cd0.items()}
@@ -611,6 +683,9 @@ def _load(o, W, model, scratch, probes, bump):
     bump(probes, "round-trip-verified-%s" % variant)
     if "into" in o:
         W[o["into"]] = m
+        if out is not None and isinstance(out[0], dict) \
+                and isinstance(out[1], dict):
+            W[o["into"] + ":loaded"] = (out[0], out[1])
         g = np.random.Generator(np.random.PCG64(17))
         W[o["into"] + ":data"] = user_data(m, 17)
         bump(probes, "loaded-mesh-reused-for-saving")
